@@ -1824,6 +1824,8 @@ def _div_ceil(ex, c):
 @summary("core::num::min", "core::cmp::Ord::min", "<u16 as Ord>::min", "<u32 as Ord>::min", "<u64 as Ord>::min", "<usize as Ord>::min", "<u8 as Ord>::min")
 def _int_min(ex, c):
     a, b = c.args
+    if not (isinstance(a, BV) and isinstance(b, BV)):
+        return _min(ex, c)
     return BV(z3.If(z3.ULE(a.t, b.t), a.t, b.t), a.signed)
 
 
@@ -2019,7 +2021,7 @@ def _crem(ex, c):
 def _int_max(ex, c):
     a, b = c.args
     if not (isinstance(a, BV) and isinstance(b, BV)):
-        raise Unsupported("max of non-integers")
+        return S["std::cmp::max"](ex, c)
     ge = (a.t >= b.t) if a.signed else z3.UGE(a.t, b.t)
     return BV(z3.If(ge, a.t, b.t), a.signed)
 
